@@ -149,6 +149,8 @@ package xbinary
 //@   ghost n uint64
 //@   ensures [C15] isEnc(buf, n) && n <= len(buf) - usize(n) ==> r2 == nil && r0 == usize(n) + n && len(r1) == n && forall(i, 0, n, r1[i] == buf[usize(n) + i])
 //@   ensures [C15] isEnc(buf, n) && n > len(buf) - usize(n) ==> r2 != nil
+// newBuf: the returned string does not live in the input buffer (it survives reuse of buf)
+//@   ensures [C15] r2 == nil && newBuf && len(r1) > 0 ==> strStore(r1) != arr(buf)
 
 //@ func WritableStringSize(v string) int
 //@   props C15
